@@ -1,5 +1,6 @@
 import KM.Driver.Core
 import KM.Model.Session
+import KM.Model.SessionCert
 /-! Driver for C05: stateful line protocol.
 
 `model`/`digest`: op line ↦ `<status> <cookies> <events>` (digest adds ` | <canonical state>`).
@@ -29,9 +30,24 @@ def pCookie1 (s : String) : Option (Option Cookie) :=
     | some (u, l) => some (some ⟨u, l⟩)
     | none => none
 
-/-- the auth cookies of a request, in order: `-` none, else references joined by `+` -/
+/-- `cert<uid>`: the request arrives with a verified keymaster client certificate of that user -/
+def isCertRef (s : String) : Bool := s.startsWith "cert"
+
+/-- the auth cookies of a request, in order: `-` none, else references joined by `+` (certificate
+references are not cookies and are skipped here, see `pCert`) -/
 def pCookie (s : String) : Option Cookies :=
-  if s == "-" then some [] else (s.splitOn "+").mapM pCookie1
+  if s == "-" then some [] else ((s.splitOn "+").filter (fun r => !isCertRef r)).mapM pCookie1
+
+/-- the client certificate of a request, if any (the last `cert<uid>` reference) -/
+def pCert (s : String) : Option User :=
+  (((s.splitOn "+").filter isCertRef).getLast?).bind fun r => (r.drop 4).toString.toNat?
+
+/-- the certificate reference of an op line (field 1 of every request op except login) -/
+def lineCert (fs : List String) : Option User :=
+  match fs with
+  | "login" :: _ => none
+  | _ :: c :: _ => pCert c
+  | _ => none
 
 def pOwner (s : String) : Option (Option User) :=
   if s == "x" then some none else (pNat s).map some
@@ -115,7 +131,7 @@ def cookieStr (c : Cookie) : String := s!"{c.sub}:{c.level}"
 
 def factorStr : Factor → String
   | .password => "pw" | .hwToken => "hw" | .vip => "vip" | .totp => "totp"
-  | .okta => "okta" | .bootstrap => "boot" | .cli => "cli"
+  | .okta => "okta" | .bootstrap => "boot" | .cli => "cli" | .x509 => "x509"
 
 def evStr (e : User × Factor) : String := s!"{factorStr e.2}:{e.1}"
 
@@ -162,7 +178,10 @@ def modelStep (v : Variant) (withDigest : Bool) (m : MState) (fs : List String) 
     match parseOp fs with
     | none => (m, "bad-op")
     | some op =>
-      let r := step v m.s op
+      -- a request carrying a client certificate goes through the certificate wrapper (repaired helper)
+      let r := match lineCert fs with
+        | some A => KM.SessionCert.stepCert true v m.s A op
+        | none => step v m.s op
       (⟨true, r.1⟩, if withDigest then s!"{outStr r.2} | {digest r.1}" else outStr r.2)
 
 /-! ### judge mode -/
@@ -180,7 +199,7 @@ structure JState where
 def pFactor (s : String) : Option Factor :=
   if s == "pw" then some .password else if s == "hw" then some .hwToken else if s == "vip" then some .vip
   else if s == "totp" then some .totp else if s == "okta" then some .okta else if s == "boot" then some .bootstrap
-  else if s == "cli" then some .cli else none
+  else if s == "cli" then some .cli else if s == "x509" then some .x509 else none
 
 def pList {α : Type} (f : String → Option α) (s : String) : Option (List α) :=
   if s == "-" then some [] else (s.splitOn ",").mapM f
@@ -216,7 +235,9 @@ def judgeStep (j : JState) (fs : List String) : JState × String :=
   | [code, cks, evs] =>
     match pList pCk cks, pList pEvent evs with
     | some cks, some evs =>
-      let log := evs ++ j.log
+      -- ground truth the harness creates by construction: `cert<uid>` is a genuine certificate of that user
+      let certU := lineCert opf
+      let log := evs ++ (match certU with | some A => [(A, Factor.x509)] | none => []) ++ j.log
       let acc := !cks.isEmpty
       let sub := (opCookie opf).map (·.sub)
       -- P1: every factor bit of every cookie handed out was verified for its subject
@@ -225,7 +246,7 @@ def judgeStep (j : JState) (fs : List String) : JState × String :=
       let v2 := cks.filterMap fun c =>
         match opf with
         | ["login", u, _] => if pNat u == some c.sub then none else some "subject:login"
-        | _ => if sub == some c.sub then none else some s!"subject:{opf.headD "?"}"
+        | _ => if sub == some c.sub || certU == some c.sub then none else some s!"subject:{opf.headD "?"}"
       -- P0: only a success response hands out a cookie (a step that failed to consume must not upgrade)
       let v0 := if acc && !(code == "200" || code == "308") then [s!"cookie-on-error:{opf.headD "?"}"] else []
       let j1 := { j with log := log }
